@@ -428,7 +428,7 @@ class File(resource.Resource, filepath.FilePath[str]):
         """
         size = self.getFileSize()
         if start is None:
-            start = size - end
+            start = max(size - end, 0)
             end = size
         elif end is None:
             end = size
